@@ -860,9 +860,11 @@ def parse_template(tpath):
 
 
 class Extractor:
-    def __init__(self, repo, tpath):
+    def __init__(self, repo, tpath, vacuity=False):
         self.repo = repo
         self.tpath = tpath
+        self.vacuity = vacuity
+        self.probed = []     # item ids that carry a vacuity probe
         self.pieces = []
         self.log = {}        # item id -> set of rules
         self.hashes = {}     # item id -> sha256 of original text
@@ -1069,6 +1071,10 @@ class Extractor:
             inserts.append((k + 1, blk))
         if fs.bodystart:
             inserts.append((1, fs.bodystart))
+        if self.vacuity and not fs.trusted and any(re.match(r"\s*requires\b", raw) for (raw, tl) in fs.contract):
+            # reachability probe behind the precondition: this assertion MUST fail
+            inserts.append((1, [("        proof { assert(false); } // VACUITY-PROBE", fs.tline)]))
+            self.probed.append(ident)
         if fs.bodyend:
             inserts.append((len(body) - 1, fs.bodyend))
         inserts.sort(key=lambda x: x[0])
@@ -1120,8 +1126,8 @@ class Extractor:
         return "\n".join(out) + "\n", linemap
 
 
-def extract(repo, tpath):
-    ex = Extractor(repo, tpath).run()
+def extract(repo, tpath, vacuity=False):
+    ex = Extractor(repo, tpath, vacuity).run()
     text, linemap = ex.render()
     meta = {
         "hashes": ex.hashes,
@@ -1130,6 +1136,7 @@ def extract(repo, tpath):
         "trusted_items": ex.trusted,
         "includes": ex.includes,
         "fn_regions": ex.fn_regions,
+        "probed": ex.probed,
     }
     return text, linemap, meta
 
